@@ -30,6 +30,8 @@ import (
 	"golang.org/x/tools/go/ssa/ssautil"
 )
 
+var globalStubs, globalPrefix = map[string]StubSpec{}, map[string]StubSpec{}
+
 type entrySpec struct {
 	name    string
 	opts    map[string]string
@@ -60,7 +62,12 @@ func main() {
 	overlay := map[string][]byte{}
 	var specs []*entrySpec
 	pkgName := ""
+	var templates []string
 	for _, h := range strings.Split(*harness, ",") {
+		if strings.HasSuffix(h, ".tmpl") {
+			templates = append(templates, h) // package-generic helper: PKGNAME substituted below
+			continue
+		}
 		src, err := os.ReadFile(h)
 		if err != nil {
 			fatalf("read harness: %v", err)
@@ -69,6 +76,16 @@ func main() {
 		ss, pn := parseDirectives(h, src)
 		specs = append(specs, ss...)
 		pkgName = pn
+	}
+	for _, h := range templates {
+		src, err := os.ReadFile(h)
+		if err != nil {
+			fatalf("read harness template: %v", err)
+		}
+		name := "zz_verif_" + strings.TrimSuffix(filepath.Base(h), ".tmpl")
+		sub := []byte(strings.ReplaceAll(string(src), "PKGNAME", pkgName))
+		overlay[filepath.Join(absPkgDir, name)] = sub
+		parseDirectives(h, sub) // shared stub directives
 	}
 	if *zzlib != "" {
 		src, err := os.ReadFile(*zzlib)
@@ -212,6 +229,19 @@ func buildConfig(s *entrySpec, tier string) *Config {
 	if tier == "thorough" {
 		c.ObTimeout = 300 * time.Second
 	}
+	c.Stubs, c.StubPrefixes = map[string]StubSpec{}, map[string]StubSpec{}
+	for k, v := range globalStubs {
+		c.Stubs[k] = v
+	}
+	for k, v := range globalPrefix {
+		c.StubPrefixes[k] = v
+	}
+	for k, v := range s.stubs {
+		c.Stubs[k] = v
+	}
+	for k, v := range s.prefix {
+		c.StubPrefixes[k] = v
+	}
 	geti := func(k string, dst *int) {
 		// tier-specific override: k@quick / k@thorough
 		if v, ok := s.opts[k+"@"+tier]; ok {
@@ -342,6 +372,13 @@ func parseDirectives(path string, src []byte) ([]*entrySpec, string) {
 				}
 			}
 		}
+	}
+	// stub directives outside function docs are shared by every entry of the run (helper files)
+	for k, v := range fileSpec.stubs {
+		globalStubs[k] = v
+	}
+	for k, v := range fileSpec.prefix {
+		globalPrefix[k] = v
 	}
 	var out []*entrySpec
 	for _, d := range f.Decls {
